@@ -1,6 +1,6 @@
 (* C13_isa.v -- re-casing of capability values in the instruction-set table and of mnemonics in a program. *)
 From Coq Require Import String Ascii Lia Bool List.
-From PS Require Import Base Str Sim Program Isa Loader TextSpec C18_proof C13_defs C13_ci.
+From PS Require Import Base Str Sim Program Isa Loader TextSpec C18_proof CiSpec C13_ci.
 
 Definition spec_rel (e e' : string * string) : Prop := fst e = fst e' /\ ci (snd e) (snd e').
 
